@@ -71,6 +71,7 @@ import (
 	"github.com/LindsayBradford/crem/internal/pkg/annealing"
 	"github.com/LindsayBradford/crem/internal/pkg/config/data"
 	"github.com/LindsayBradford/crem/internal/pkg/config/interpreter"
+	"github.com/LindsayBradford/crem/internal/pkg/model"
 	"github.com/LindsayBradford/crem/internal/pkg/model/archive"
 	"github.com/LindsayBradford/crem/internal/pkg/observer"
 	"github.com/LindsayBradford/crem/internal/pkg/parameters"
@@ -439,7 +440,11 @@ func c08Case(cfg c08Config) {
 		cs["nfiles"] = 0
 		cs["filesOk"] = false
 		emit(cs)
-		c08Oracle(cfg, "scenario process died (a run goroutine panicked or the runner hung)", J{"stderr": tail})
+		if strings.Contains(tail, "DATA RACE") {
+			c08Oracle(cfg, "data race reported by the Go race detector (-race build of the same scenario)", J{"stderr": tail})
+		} else {
+			c08Oracle(cfg, "scenario process died (a run goroutine panicked or the runner hung)", J{"stderr": tail})
+		}
 		return
 	}
 	// per-run oracle: the property itself, evaluated on what the real code did
@@ -559,6 +564,17 @@ func runC08(args []string) {
 	if len(args) > 0 {
 		tier = args[0]
 	}
+	if tier == "race" {
+		// this binary was built with -race (thorough tier, search support only): the children are
+		// re-executions of it, so a race report makes the child exit with status 66
+		for _, fam := range c08Families {
+			for _, g := range [][3]int{{4, 4, 40}, {5, 2, 15}, {8, 8, 10}, {6, 3, 25}} {
+				c08Case(c08Config{Fam: fam, R: g[0], C: g[1], N: g[2], T0: 20, Cf: 0.99, Class: "race"})
+			}
+		}
+		emit(J{"kind": "stat", "stats": c08stats})
+		return
+	}
 	// (1) alias translator
 	for _, fam := range c08Families {
 		c08AliasFamily(fam)
@@ -657,7 +673,68 @@ func c08AstFacts() {
 	}
 	sort.Strings(sites)
 	c08stats["ast_files_scanned"] = files
-	emit(J{"kind": "astfact", "global_write_sites": sites, "files_scanned": files})
+	locked, unlocked, shapeOk := c08SaverLockFacts()
+	emit(J{"kind": "astfact", "global_write_sites": sites, "files_scanned": files,
+		"saver_locked": locked, "saver_unlocked": unlocked, "saver_shape_recognised": shapeOk})
+}
+
+// Lock discipline of the one object all runs share by design and that holds mutable state: every
+// method of scenario.Saver that touches s.decompressionModel (except SetDecompressionModel, which
+// runs at set-up) must begin with `s.decompressionMutex.Lock(); defer s.decompressionMutex.Unlock()`.
+func c08SaverLockFacts() (locked, unlocked []string, shapeOk bool) {
+	locked, unlocked = []string{}, []string{}
+	fset := token.NewFileSet()
+	f, err := parser.ParseFile(fset, "internal/pkg/scenario/Saver.go", nil, 0)
+	if err != nil {
+		return locked, unlocked, false
+	}
+	isMutexCall := func(e ast.Expr, method string) bool {
+		call, ok := e.(*ast.CallExpr)
+		if !ok {
+			return false
+		}
+		sel, ok := call.Fun.(*ast.SelectorExpr)
+		if !ok || sel.Sel.Name != method {
+			return false
+		}
+		inner, ok := sel.X.(*ast.SelectorExpr)
+		return ok && inner.Sel.Name == "decompressionMutex"
+	}
+	sawSetter := false
+	for _, d := range f.Decls {
+		fd, ok := d.(*ast.FuncDecl)
+		if !ok || fd.Recv == nil || fd.Body == nil {
+			continue
+		}
+		touches := false
+		ast.Inspect(fd.Body, func(n ast.Node) bool {
+			if sel, ok := n.(*ast.SelectorExpr); ok && sel.Sel.Name == "decompressionModel" {
+				touches = true
+			}
+			return true
+		})
+		if !touches {
+			continue
+		}
+		if fd.Name.Name == "SetDecompressionModel" {
+			sawSetter = true
+			continue
+		}
+		ok2 := len(fd.Body.List) >= 2
+		if ok2 {
+			es, isExpr := fd.Body.List[0].(*ast.ExprStmt)
+			ds, isDefer := fd.Body.List[1].(*ast.DeferStmt)
+			ok2 = isExpr && isDefer && isMutexCall(es.X, "Lock") && isMutexCall(ds.Call, "Unlock")
+		}
+		if ok2 {
+			locked = append(locked, fd.Name.Name)
+		} else {
+			unlocked = append(unlocked, fd.Name.Name)
+		}
+	}
+	sort.Strings(locked)
+	sort.Strings(unlocked)
+	return locked, unlocked, sawSetter && len(locked)+len(unlocked) > 0
 }
 
 // polls the process working directory while run clones are prepared (each catchment clone loads
@@ -919,6 +996,29 @@ func c08AliasFamily(fam string) {
 		cl.SolutionExplorer().Initialise() // first statement of SimpleAnnealer.Anneal
 		roots = append(roots, cl)
 	}
+	// every clone loads the input data itself: the as-is valuation must be the same in all of them
+	asIs := []string{}
+	for _, r := range roots[1:] {
+		m := r.Model().DeepClone()
+		m.Initialise(model.AsIs)
+		vals := []string{fmt.Sprint(len(m.ManagementActions()))}
+		names := []string{}
+		for n := range *m.NameMappedVariables() {
+			names = append(names, n)
+		}
+		sort.Strings(names)
+		for _, n := range names {
+			vals = append(vals, fmt.Sprintf("%s=%v", n, m.DecisionVariable(n).Value()))
+		}
+		asIs = append(asIs, strings.Join(vals, " "))
+	}
+	for _, v := range asIs[1:] {
+		if v != asIs[0] {
+			emit(J{"kind": "oracle", "what": "run clones did not load the same input data (as-is valuations differ)", "fam": fam, "asis": asIs})
+			c08stats["oracle_lines"]++
+			break
+		}
+	}
 	// names of the attributes the explorers join into annealer events
 	explorerNames := map[string]bool{}
 	for _, r := range roots[1:] {
@@ -1110,7 +1210,7 @@ func c08AliasFamily(fam string) {
 	}
 	sort.Strings(en)
 	emit(J{"kind": "alias", "fam": fam, "reachable": reach, "shared_total": nshared1, "shared": shared, "fp": fps,
-		"overlaps": overlaps, "explorer_attribute_names": en})
+		"overlaps": overlaps, "explorer_attribute_names": en, "asis_valuation": asIs[0]})
 }
 
 func pruned0Path(ws []*c08Walk, id int) string {
